@@ -1034,6 +1034,13 @@ fn run_weighted(rep: &mut Report, rt: Rt, fun: &Fun, tol: f64) {
 }
 
 fn run_simpson(rep: &mut Report, fun: &Fun, a: f64, b: f64, tol: f64, tight_nmax: Option<usize>) {
+    run_simpson_depth(rep, fun, a, b, tol, tight_nmax.map(|e| e as i64))
+}
+
+/// `tight_nmax`: Some(e >= 0): n_max = (depth at which every panel is accepted) + 1 + e, sufficient;
+/// Some(e < 0): n_max = that depth + 1 + e (at least 1), possibly insufficient - then Err is a correct
+/// answer, and an Ok answer is held to the same accuracy bound as any other
+fn run_simpson_depth(rep: &mut Report, fun: &Fun, a: f64, b: f64, tol: f64, tight_nmax: Option<i64>) {
     let (exact, mag) = fun.integral(a, b);
     let len = b - a;
     let floor = FLOOR_C * EPS * mag * len;
@@ -1042,9 +1049,10 @@ fn run_simpson(rep: &mut Report, fun: &Fun, a: f64, b: f64, tol: f64, tight_nmax
     let depth = if poly5 { simpson_depth(len, fun.dbound(4, a, b), tol) } else { None };
     let lreq = depth.map(|d| d as i64).unwrap_or(-1);
     let n_max = match (depth, tight_nmax) {
-        (Some(d), Some(extra)) => d + 1 + extra,
+        (Some(d), Some(extra)) => (d as i64 + 1 + extra).max(1) as usize,
         _ => 60,
     };
+    let possibly_insufficient = matches!((depth, tight_nmax), (Some(_), Some(e)) if e < 0);
     let c = Call { rt: Rt::Simpson, a, b, tol, n: n_max };
     let in_class = poly5 && rounding_ok;
     if poly5 && !rounding_ok {
@@ -1053,6 +1061,13 @@ fn run_simpson(rep: &mut Report, fun: &Fun, a: f64, b: f64, tol: f64, tight_nmax
     let bound = K_SIMPSON * tol + floor;
     let (g, obs) = call_lib(&c, fun);
     check_abscissae(rep, &c, fun, &obs);
+    if possibly_insufficient && in_class {
+        rep.count("simpson/in_class_cases_with_possibly_insufficient_n_max", 1);
+        if let Guarded::Ok(Err(_)) = &g {
+            rep.count("simpson/err_returned_with_insufficient_n_max", 1);
+            return;
+        }
+    }
     let v = Verdict { in_class, bound, ratio_name: "err_over_tol(degree<=5)" };
     let err = judge(rep, &c, fun, &g, &obs, exact, &v, &|j| j.set("depth_at_which_every_panel_is_accepted", lreq));
     if in_class && n_max < 60 {
@@ -1370,6 +1385,22 @@ fn case_gauss(rng: &mut Rng, rep: &mut Report) {
         tol = rng.log10(-11.0, -9.0);
     }
     let mut fun = gen_fun_interval(rng, complex, a, b, Mix::All, 2 * (ROWS_LEGENDRE - 2) - 1);
+    if !short && rng.chance(0.08) {
+        // Stratum "large mean value, small unresolved component": a constant of size 1e2..2e3 plus a
+        // small centred polynomial of degree 8..19. The tolerance is absolute: the early rules agree
+        // to many digits RELATIVE to the integral long before they resolve the small component
+        let deg = 8 + rng.below(12);
+        let mut f2 = Fun::zero(complex);
+        centred_poly(rng, &mut f2, a, b, deg);
+        let g = rng.log10(-2.5, -0.5);
+        for c in f2.poly.iter_mut() {
+            *c *= g;
+        }
+        f2.poly[0] += C::new(rng.sign() * rng.log10(2.0, 3.3), 0.0);
+        fun = f2;
+        tol = rng.log10(-7.0, -3.0);
+        rep.count("gauss/large_mean_small_component_cases", 1);
+    }
     if short {
         let g = rng.log10(1.5, 3.5);
         for c in fun.poly.iter_mut() {
@@ -1401,8 +1432,13 @@ fn case_simpson_poly(rng: &mut Rng, rep: &mut Report) {
     } else {
         monomial_poly(rng, &mut fun, deg);
     }
-    let tight = if rng.chance(0.5) { Some(rng.below(2)) } else { None };
-    run_simpson(rep, &fun, a, b, tol, tight);
+    let tight: Option<i64> = match rng.below(10) {
+        0..=3 => Some(rng.below(2) as i64),
+        // a depth limit below what the integrand needs: Err, or an Ok that is accurate all the same
+        4 | 5 => Some(-(1 + rng.below(4) as i64)),
+        _ => None,
+    };
+    run_simpson_depth(rep, &fun, a, b, tol, tight);
 }
 
 fn case_simpson_smooth(rng: &mut Rng, rep: &mut Report) {
@@ -1612,8 +1648,10 @@ pub fn thresholds(ctx: &Ctx, rep: &Report) -> Vec<Threshold> {
     need("tanh-sinh in-class cases in the tolerance-proportional band (tol >= 1e-8)".into(), 4000.0, "tanhsinh/in_class_proportional_band".into());
     need("tanh-sinh in-class cases in the sqrt band (1e-11 <= tol < 1e-8)".into(), 2000.0, "tanhsinh/in_class_sqrt_band".into());
     need("Simpson runs whose work was compared with the textbook scheme on >= 50 panels".into(), 4000.0, "simpson/work_compared_with_50_or_more_panels".into());
-    need("Simpson in-class cases with n_max = depth bound + 1 or + 2".into(), 2000.0, "simpson/in_class_tight_n_max".into());
+    need("Simpson in-class cases with a depth limit below the depth bound".into(), 1500.0, "simpson/in_class_cases_with_possibly_insufficient_n_max".into());
+    need("Simpson in-class cases with n_max = depth bound + 1 or + 2".into(), 1200.0, "simpson/in_class_tight_n_max".into());
     need("tanh-sinh cases steered to a small level difference outside the trend window".into(), 3.0, "tanhsinh/small_difference_outside_trend_window_steered".into());
+    need("Gauss-Legendre cases with a large mean value and a small unresolved component".into(), 800.0, "gauss/large_mean_small_component_cases".into());
     need("Gauss-Legendre cases on short intervals with large values and tight tolerances".into(), 1_000.0, "gauss/short_interval_large_values_cases".into());
     need("Romberg cases with two exactly equal successive trapezoid sums that have not converged".into(), 2_000.0, "romberg/equal_entry_cases".into());
     need("Romberg cases with degree 2n-2 or 2n-1".into(), 5000.0, "romberg/top_degree_cases".into());
